@@ -386,7 +386,7 @@ impl Property for C19 {
         ]
     }
     fn families(&self, tier: Tier) -> Vec<Family<Case>> {
-        vec![Family::random("shape-text", tier.n(48_000, 300_000), fam_cases)]
+        vec![Family::random("shape-text", tier.n(48_000, 900_000), fam_cases)]
     }
     fn judge(&self, c: &Case, _strict: bool) -> Verdict {
         let doc = case_xml(c);
